@@ -211,6 +211,7 @@ def run(ck):
             ck.sample({"mode": mode, "target": target, "emitted": e2e.struct_body(res.get("out", ""), target)[:200] if mode == "opaque" else "(not defined)"})
         cpp_opaque_instantiations(ck, bindgen, tmp, quick)
         cpp_opaque_bases(ck, bindgen, tmp)
+        opaque_non_records(ck, bindgen, tmp)
         # ---- functions, variables, items, files
         d = os.path.join(tmp, "fs")
         os.makedirs(os.path.join(d, "sub"))
@@ -345,6 +346,60 @@ def cpp_opaque_bases(ck, bindgen, tmp):
             kind = {"DE": "empty", "DM": "empty", "DB": "data", "DV": "virtual"}[rec.name]
             ck.violation("C10-container-layout:opaque-base:%s" % kind, "a class derived from an opaque base does not keep its C++ layout",
                          dict(base, record=rec.name, clang=c, rustc=rr, emitted=e2e.struct_body(out, rec.name)[:200]))
+
+
+def opaque_non_records(ck, bindgen, tmp):
+    """--opaque-type on things that are not emitted as their own struct: typedefs of scalars / over-aligned scalars / records / arrays,
+    enums; each alone, as a member, as an array element: exact size and alignment, nothing of the original type visible"""
+    d = os.path.join(tmp, "opq_nr")
+    os.makedirs(d)
+    tds = [("quad_t", "typedef struct quad_s { char c; } __attribute__((aligned(16))) quad_t;"), ("real_t", "typedef long double real_t;"), ("wide_t", "typedef __int128 wide_t;"),
+           ("dbl_t", "typedef double dbl_t;"), ("pair_t", "typedef struct pair_s { int a; short b; } pair_t;"), ("arr_t", "typedef short arr_t[5];"), ("ptr_t", "typedef struct pair_s *ptr_t;"),
+           ("big_t", "typedef struct big_s { double d[9]; char c; } big_t;"), ("al32_t", "typedef struct al32_s { int i; } __attribute__((aligned(32))) al32_t;"), ("chr_t", "typedef char chr_t;"),
+           ("c4_t", "typedef char c4_t __attribute__((aligned(4)));"), ("i8a_t", "typedef int i8a_t __attribute__((aligned(8)));")]
+    body = "\n".join(t for _, t in tds) + "\n"
+    for n, _ in tds:
+        body += "struct H_%s { char lead; %s m; %s arr[2]; char tail; };\n" % (n, n, n)
+    open(os.path.join(d, "t.h"), "w").write(body)
+    probe = '#include <stdio.h>\n#include <stddef.h>\n#include "t.h"\nint main(void) {\n'
+    for n, _ in tds:
+        probe += '  printf("%s %%zu %%zu\\n", sizeof(%s), _Alignof(%s));\n' % (n, n, n)
+        probe += '  printf("H_%s %%zu %%zu m=%%zu arr=%%zu tail=%%zu\\n", sizeof(struct H_%s), _Alignof(struct H_%s), offsetof(struct H_%s, m), offsetof(struct H_%s, arr), offsetof(struct H_%s, tail));\n' % ((n,) * 6)
+    probe += "  return 0; }\n"
+    open(os.path.join(d, "p.c"), "w").write(probe)
+    rc, o, e = sh2(["clang", "-std=gnu11", "-w", "-o", "p", "p.c"], cwd=d, timeout=120)
+    if rc != 0:
+        raise TieBroken("c10-opaque-non-records-probe", e[-800:])
+    rc, o, e = sh2(["./p"], cwd=d, timeout=60)
+    cn = e2e.parse_numbers(o)
+    for n, decl in tds:
+        flags = ["--opaque-type", "^%s$" % n, "--no-layout-tests"]
+        rc, out, err = sh2([bindgen, os.path.join(d, "t.h")] + flags + ["--allowlist-type", "^H_%s$" % n, "--allowlist-type", "^%s$" % n], timeout=120)
+        ck.evaluations += 1
+        ck.nontrivial.add(("opaque-non-record", n))
+        base = {"header": decl + "\nstruct H_%s { char lead; %s m; %s arr[2]; char tail; };" % (n, n, n), "flags": flags}
+        if rc != 0:
+            ck.violation("C10-bindgen-failed:opaque-typedef", "bindgen fails on an opaque typedef", dict(base, stderr=err[-400:]))
+            continue
+        src = ("#![allow(warnings)]\n" + out + "\nfn main() {\n  println!(\"%s {} {}\", ::std::mem::size_of::<%s>(), ::std::mem::align_of::<%s>());\n" % (n, n, n) +
+               "  println!(\"H_%s {} {} m={} arr={} tail={}\", ::std::mem::size_of::<H_%s>(), ::std::mem::align_of::<H_%s>(), ::std::mem::offset_of!(H_%s, m), ::std::mem::offset_of!(H_%s, arr), ::std::mem::offset_of!(H_%s, tail));\n}\n" % ((n,) * 6))
+        open(os.path.join(d, "r_%s.rs" % n), "w").write(src)
+        rc2, so, se = sh2(["rustc", "--edition", "2021", "-A", "warnings", "-o", "r_%s" % n, "r_%s.rs" % n], cwd=d, timeout=300)
+        if rc2 != 0:
+            ck.violation("C10-opaque-typedef-does-not-compile:%s" % n, "bindings with an opaque typedef do not compile", dict(base, rustc=e2e.rustc_errors(se, 3), emitted=out[-600:]))
+            continue
+        rc3, so, se = sh2(["./r_%s" % n], cwd=d, timeout=60)
+        rn = e2e.parse_numbers(so)
+        for key in (n, "H_" + n):
+            if rn.get(key) != cn.get(key):
+                what = "scalar-overaligned" if n in ("c4_t", "i8a_t") else "align-above-8" if n in ("quad_t", "real_t", "wide_t", "al32_t") else "other"
+                ck.violation("C10-opaque-typedef-layout:%s" % what, "an opaque typedef (or a struct holding it) does not have C's size / alignment / offsets",
+                             dict(base, item=key, clang=cn.get(key), rustc=rn.get(key), emitted=re.findall(r"pub type %s = [^;]*;" % n, out)))
+                break
+        # nothing of the original type may be visible
+        m = re.search(r"pub type %s = ([^;]*);" % n, out)
+        if m and not re.search(r"__BindgenOpaqueArray|\[u\d+; |^u\d+$|^\[u8", m.group(1).strip()):
+            ck.violation("C10-opaque-typedef-not-a-blob", "an opaque typedef is not emitted as a blob", dict(base, emitted=m.group(0)))
 
 
 def replay(ck, path):
